@@ -137,6 +137,41 @@ Definition doc_header_gap : doc := D [
   ".outputs y";
   ".subckt INV I=a O=y";
   ".end" ].
+(* comment lines and blank lines at every line boundary - between .model and the port lines, between the port
+   lines, between an instance statement and its .cname/.attr/.param, inside the truth table of a .names -,
+   the port lines' nets used by a .names and a .subckt, and no .end at the end of the file.  (A trailing
+   "# ..." on a statement line never reaches the document: the tokenizer drops it.) *)
+Definition doc_gaps : doc := D [
+  "# head";
+  ".model top";
+  "";
+  "# ports";
+  ".inputs a b";
+  "";
+  ".outputs y z";
+  "# clock";
+  ".clock a";
+  ".names a b y";
+  "# rows";
+  "11 1";
+  "";
+  "0- 1";
+  "# name of the table";
+  ".cname t1";
+  ".subckt INV I=y O=z";
+  "";
+  "# the name follows";
+  ".cname u1";
+  "# and the rest";
+  ".attr src f.v:3";
+  "";
+  ".param W 2" ].
+(* .end is optional at the end of the file: after an instance statement, inside a truth table, in the header *)
+Definition doc_no_end_inst : doc := D [ ".model top"; ".inputs a"; ".outputs y"; ".subckt INV I=a O=y" ].
+Definition doc_no_end_rows : doc := D [ ".model top"; ".inputs a"; ".outputs y"; ".names a y"; "1 1" ].
+Definition doc_no_end_hdr : doc := D [ ".model top"; ".inputs a"; ".outputs y" ].
+(* the port lines in another order: the reader takes them (the theorem C18_sound_full_holds does not cover it) *)
+Definition doc_outputs_first : doc := D [ ".model top"; ".clock c"; ".outputs y"; ".inputs a"; ".subckt INV I=a O=y"; ".end" ].
 (* .conn before the statements that use the nets *)
 Definition doc_conn_early : doc := D [
   ".model top";
@@ -228,6 +263,14 @@ Definition pin_vpr : pinref := PTop (s2l "__vpr__unconn3") 0.
 Definition pin_i0_in1 : pinref := PInst 0 (s2l "in_1") 0.
 Definition pin_i1_out : pinref := PInst 1 (s2l "out") 0.
 Definition pin_i2_I : pinref := PInst 2 (s2l "I") 0.
+(* expected values of the repaired header-gap / comment-in-info / any-order examples *)
+Definition gap_ports : list (str * dir) := [(s2l "a", DIn); (s2l "y", DOut)].
+Definition of_ports : list (str * dir) := [(s2l "y", DOut); (s2l "a", DIn)].
+Definition u1_names : list (option str) := [Some (s2l "u1")].
+Definition info_comment : list (list str) := [[s2l "the"; s2l "name"; s2l "follows"]].
+Definition gaps_cnames : list (option str) := [Some (s2l "t1"); Some (s2l "u1")].
+Definition clock_a : option (list str) := Some [s2l "a"].
+Definition clock_c : option (list str) := Some [s2l "c"].
 End C18Docs2.
 Export C18Docs2.
 
@@ -245,40 +288,12 @@ Proof.
   destruct (H1 _ eq_refl) as [n' [H2 _]]. vm_compute in H2. discriminate.
 Qed.
 
-Lemma sound_refuted_comment_in_info :
-  exists d n, supported d = false /\ elab d = Ok n /\ ~ denote d n.
-Proof.
-  exists doc_comment_in_info.
-  remember (elab doc_comment_in_info) as r eqn:Er. vm_compute in Er. subst r.
-  eexists. split; [vm_compute; reflexivity|]. split; [reflexivity|].
-  intros [ss [Hg [HF _]]].
-  vm_compute in Hg. inversion Hg; subst ss. clear Hg.
-  destruct (HF nm_top (or_introl eq_refl)) as [[_ Hi _ _ _] _].
-  specialize (Hi _ eq_refl). vm_compute in Hi. discriminate.
-Qed.
-
 Lemma same_wire_b_complete m a b :
   same_wire m a b ->
   existsb (fun c => existsb (fun w => wire_has a w && wire_has b w) (c_wires c)) (m_cables m) = true.
 Proof.
   intros [c [w [Hc [Hw [Ha Hb]]]]]. apply existsb_exists. exists c. split; [assumption|].
   apply existsb_exists. exists w. split; [assumption|]. apply andb_true_iff. split; apply existsb_pinref; assumption.
-Qed.
-
-Lemma sound_refuted_header_gap :
-  exists d n, supported d = false /\ elab d = Ok n /\ ~ denote d n.
-Proof.
-  exists doc_header_gap.
-  remember (elab doc_header_gap) as r eqn:Er. vm_compute in Er. subst r.
-  eexists. split; [vm_compute; reflexivity|]. split; [reflexivity|].
-  intros [ss [Hg [HF _]]].
-  vm_compute in Hg. inversion Hg; subst ss. clear Hg.
-  destruct (HF nm_top (or_introl eq_refl)) as [[_ _ _ Hn _] _].
-  specialize (Hn eq_refl _ eq_refl (PTop [97%N] 0) (PInst 0 [73%N] 0)).
-  destruct Hn as [_ Hn].
-  match type of Hn with ?P -> _ => assert (HP : P) end.
-  { exists ([97%N], 0), ([97%N], 0). vm_compute. split; [left; reflexivity|]. split; [right; right; left; reflexivity|]. apply sb_refl. }
-  apply Hn in HP. apply same_wire_b_complete in HP. vm_compute in HP. discriminate.
 Qed.
 
 (* the file joins net a with net b, and a third net called a_0_b_0 with net c.  Before the repair of
@@ -346,4 +361,70 @@ Proof.
   eexists. eexists. eexists. split; [reflexivity|]. split; [reflexivity|].
   split; [vm_compute; reflexivity|]. split; [vm_compute; reflexivity|].
   vm_compute. repeat split; reflexivity.
+Qed.
+
+(* ====================================================================== comment lines and blank lines *)
+(* REPAIRED reader (peek_statement): in every mode of the line classifier a blank line changes nothing and a
+   comment line gives its SComment and leaves the mode as it is - also between .model and the port lines,
+   inside a truth table, inside the .cname/.attr/.param block of an instance *)
+Definition gap_line (l : line) : Prop := l = [] \/ exists c, l = k_hash :: c.
+Definition gap_stmts (l : line) : list stmt :=
+  match l with [] => [] | _ :: c => [SComment c] end.
+
+Lemma cl_line_gap md l : gap_line l -> cl_line md l = Ok (gap_stmts l, md).
+Proof.
+  intros [->|[c ->]].
+  - destruct md; reflexivity.
+  - destruct md; cbn [cl_line gap_stmts]; unfold cl_top, cl_hdr, cl_plain, cl_rows, cl_info;
+      change (is_row_tok k_hash) with false; rewrite ?str_eqb_refl; reflexivity.
+Qed.
+
+Lemma classify_from_gap md l d :
+  gap_line l -> classify_from md (l :: d) = (do r <- classify_from md d; Ok (gap_stmts l ++ r)).
+Proof. intro H. cbn [classify_from]. rewrite (cl_line_gap md l H). reflexivity. Qed.
+
+(* the reading of a document splits at any line boundary: a prefix is read up to some mode, the rest from it *)
+Lemma classify_from_split d1 : forall md d2 r,
+  classify_from md (d1 ++ d2) = Ok r ->
+  exists md' s1 s2, r = s1 ++ s2 /\ classify_from md' d2 = Ok s2 /\
+    forall d2' s2', classify_from md' d2' = Ok s2' -> classify_from md (d1 ++ d2') = Ok (s1 ++ s2').
+Proof.
+  induction d1 as [|l d1 IH]; intros md d2 r H.
+  - exists md, [], r. split; [reflexivity|]. split; [exact H|]. intros d2' s2' H'. exact H'.
+  - cbn [app classify_from] in H. apply bind_ok in H as [[s md1] [H1 H2]]. apply bind_ok in H2 as [rest [H2 H3]].
+    inversion H3; subst r. destruct (IH md1 d2 rest H2) as [md' [s1 [s2 [E1 [E2 E3]]]]].
+    exists md', (s ++ s1), s2. split; [rewrite E1, app_assoc; reflexivity|]. split; [exact E2|].
+    intros d2' s2' H'. cbn [app classify_from]. rewrite H1. cbn [bind]. rewrite (E3 d2' s2' H'). cbn [bind].
+    rewrite app_assoc. reflexivity.
+Qed.
+
+Lemma tokenized_gap l : gap_line l -> line_tokenized l = true.
+Proof. intros [->|[c ->]]; [reflexivity|]. unfold line_tokenized. rewrite str_eqb_refl. reflexivity. Qed.
+
+(* a comment line or blank line inserted at ANY line boundary of an accepted document: the document is still
+   accepted, and its statements are the same ones with the comment at that place *)
+Theorem gap_insertion d1 d2 l r :
+  gap_line l -> classify (d1 ++ d2) = Ok r ->
+  exists s1 s2, r = s1 ++ s2 /\ classify (d1 ++ l :: d2) = Ok (s1 ++ gap_stmts l ++ s2).
+Proof.
+  intros Hl H. unfold classify in H |- *.
+  destruct (tokenized (d1 ++ d2)) eqn:Et; [|discriminate].
+  assert (Et' : tokenized (d1 ++ l :: d2) = true).
+  { unfold tokenized in Et |- *. rewrite forallb_app in Et |- *. apply andb_true_iff in Et as [A B].
+    cbn [forallb]. rewrite A, B, (tokenized_gap l Hl). reflexivity. }
+  rewrite Et'. destruct (classify_from_split d1 MTop d2 r H) as [md' [s1 [s2 [E1 [E2 E3]]]]].
+  exists s1, s2. split; [exact E1|]. apply E3. rewrite (classify_from_gap md' l d2 Hl), E2. reflexivity.
+Qed.
+
+(* the end of the file closes the model in every mode inside a model *)
+Lemma eof_closes md : md <> MTop -> classify_from md [] = Ok [SEnd].
+Proof. destruct md; [congruence| | | |]; reflexivity. Qed.
+
+(* so a blank line, wherever it is put, changes nothing of what the reader builds *)
+Theorem blank_line_irrelevant d1 d2 n : elab (d1 ++ d2) = Ok n -> elab (d1 ++ [] :: d2) = Ok n.
+Proof.
+  unfold elab. intro H. apply bind_ok in H as [ss [H1 H2]].
+  destruct (gap_insertion d1 d2 [] ss (or_introl eq_refl) H1) as [s1 [s2 [E1 E2]]].
+  change (s1 ++ gap_stmts [] ++ s2) with (s1 ++ s2) in E2. rewrite <- E1 in E2.
+  exact (eq_trans (f_equal (fun r => bind r elab_stmts) E2) H2).
 Qed.
